@@ -76,6 +76,7 @@ Clauses(r) ==
       [] r.k = "inv"    -> InvClauses(r)
       [] r.k = "sm"     -> SmClauses(r)
       [] r.k = "qr"     -> << <<"qr", QrOK(r)>> >>
+      [] r.k = "qrview" -> << <<"qr-solve-on-view", QrViewOK(r)>> >>
       [] r.k = "dsolve" -> << <<"direct-solver", r.exc = 0 /\ r.err <= Tol>> >>
       [] OTHER          -> << <<"unknown-record", FALSE>> >>
 
